@@ -5,6 +5,7 @@ mod c08;
 mod c09;
 mod c10;
 mod c11;
+mod c12;
 mod c14;
 mod c15;
 mod c16;
@@ -28,6 +29,7 @@ fn dispatch(case: &Sexp) -> Option<Sexp> {
         "contains" | "simd-active" => c10::run(head, args),
         "wildcard" | "regex" => c11::run(head, args),
         "lit" | "lit-span" => c06::run(head, args),
+        "uses" | "uses-value" => c12::run(head, args),
         "ctx-roundtrip" | "ctx-roundtrip-exec" | "ctx-json" | "value-roundtrip" | "value-json" => c14::run(head, args),
         "type-codec" | "type-json" | "scheme-json" | "scheme-roundtrip" | "ctype-build" | "ctype-decode" => {
             c15::run(head, args)
